@@ -727,6 +727,20 @@ class H5Type(str, Enum):
         return f"{type(self).__name__}.{self.value}"
 
 
+def attr_value_for_copy(val):
+    """Return an attribute value as read from a node in a form that can be stored again.
+
+    A byte string that is no valid UTF-8 is read back by h5py as `str` with
+    surrogate escapes, which cannot be written as it is -> turn it into bytes again.
+    """
+    if isinstance(val, str):
+        try:
+            val.encode("utf-8")
+        except UnicodeEncodeError:
+            return val.encode("utf-8", "surrogateescape")
+    return val
+
+
 def h5_copy_from_to(
     source_node: Union[H5DatasetLike, H5GroupLike],
     target_group: H5GroupLike,
@@ -758,7 +772,7 @@ def h5_copy_from_to(
         if not without_attrs:
             trg_atrs = trg_node.attrs
             for k, v in src_node.attrs.items():
-                trg_atrs[k] = v
+                trg_atrs[k] = attr_value_for_copy(v)
 
     if isinstance(source_node, H5DatasetLike):
         node = target_group.create_dataset(target_path, data=source_node[()])
